@@ -375,6 +375,10 @@ def run(ck):
                             "modifies is initialised on every path returning LZMA_OK")
     reinit.check_init_consistency(ck, prog, "C06-INITCONS", skip_files=("stream_encoder_mt.c", "stream_decoder_mt.c"))
     ck.floor("C06-INITCONS", 40)
+    ck.rule("C06-APPLY", "an amount measured in this call (bytes used, padding found) is applied to the persistent member "
+                         "it updates on every way out that the caller continues from")
+    reinit.check_local_applied(ck, prog, "C06-APPLY")
+    ck.floor("C06-APPLY", 9)
     ck.rule("C06-READFIRST", "what the coding function can read before storing to it is stored by the init function on every path returning LZMA_OK")
     reinit.check_read_first(ck, prog, "C06-READFIRST")
     ck.floor("C06-READFIRST", 90)
